@@ -347,7 +347,7 @@ def run(ck, prog, ctx):
                         it = host.blocks[a[4]].term
                         taken |= {x for x in comp_in(host, pvl.of_operand(host, it.args[1])) if x.startswith("K")}
         ck.ob("PAIR", nm + "/takes-both", taken == {"K0", "K1"}, "%s retires %s from `sets` (expected key.0 and key.1)" % (nm, " and ".join("key." + k[1:] for k in sorted(taken)) or "nothing"), where=host.where())
-    ck.floor("TABLE", "retain predicates", n_ret, 2)
+    ck.floor("TABLE", "retain predicates", n_ret, 1)
 
     # ---- index of the new cluster: distances to it are stored under (live index, index of the pushed set)
     ck.rule("FIELD", "the key of a new distance is (live index, index the merged set is pushed at): Vec::len taken before the push, or len - 1 after it (DESIGN 3.9)")
